@@ -188,6 +188,9 @@ def run(ctx):
                f'what the user wrote', file=lex.file, line=sites[0].lineno,
                witness="select 'it''s' 'x'   -- the message shows 'it's' and too few carets")
 
+    # (5b) token.lineno is not a physical line number ------------------------------------------------------------
+    check_lineno_use(ctx, lex, sm)
+
     # (6) lexer error callback -----------------------------------------------------------------------------------
     ef = None
     for st in lex.node.body:
@@ -261,3 +264,61 @@ def check_verified(ctx, sm):
         ctx.ob('C19.suggestions-verified', f'query_is_valid({norm(arg) if arg is not None else ""})@{c.lineno - fn.lineno}', ok,
                'the re-parse that verifies a suggestion is not run on this call\'s token list with the candidate inserted',
                file=INIT, line=c.lineno)
+
+
+def _can_match_newline(pattern, flags):
+    import re
+    try:
+        rx = re.compile(pattern, flags)
+    except re.error:
+        return False
+    probes = ['\n', 'a\nb', '/*\n*/', "'a\nb'", '"a\nb"', '`a\nb`', "@'a\nb'", '@"a\nb"', '@`a\nb`', "@@'a\nb'", '--\n', ' \n ']
+    return any(rx.fullmatch(p) for p in probes)
+
+
+def check_lineno_use(ctx, lex, sm):
+    """sly's lineno only advances where a lexer action says so.  If some rule can consume a newline without updating
+    self.lineno (multi-line comments, multi-line strings), token.lineno is NOT the physical line: indexing the physical
+    lines of the text with it points at the wrong line."""
+    stale = []
+    for r in lex.rules:
+        if not _can_match_newline(r.pattern, lex.reflags):
+            continue
+        updates = r.func is not None and any(
+            isinstance(n, (ast.Assign, ast.AugAssign)) and 'self.lineno' in norm(n.targets[0] if isinstance(n, ast.Assign) else n.target)
+            for n in ast.walk(r.func))
+        if not updates:
+            stale.append(r.name)
+    ctx.setcount('newline_rules_without_lineno_update', len(stale))
+    if not stale:
+        return
+    for fn in [m for m in sm.cls.body if isinstance(m, ast.FunctionDef)]:
+        dicts = set()
+        lineno_names = set()
+        for n in ast.walk(fn):
+            if isinstance(n, ast.Assign) and len(n.targets) == 1 and isinstance(n.targets[0], ast.Name):
+                v = n.value
+                if isinstance(v, ast.Dict) or (isinstance(v, ast.Call) and (dotted(v.func) or '').split('.')[-1] in (
+                        'dict', 'defaultdict', 'OrderedDict')):
+                    dicts.add(n.targets[0].id)
+        for _ in range(3):
+            for n in ast.walk(fn):
+                if isinstance(n, (ast.Assign, ast.AugAssign)):
+                    tg = n.targets[0] if isinstance(n, ast.Assign) else n.target
+                    if isinstance(tg, ast.Name):
+                        txt = norm(n.value)
+                        if '.lineno' in txt or any(isinstance(x, ast.Name) and x.id in lineno_names for x in ast.walk(n.value)):
+                            if not (isinstance(n.value, ast.Subscript) or isinstance(n.value, ast.Call)):
+                                lineno_names.add(tg.id)
+        for n in ast.walk(fn):
+            if isinstance(n, ast.Subscript) and isinstance(n.value, ast.Name) and n.value.id not in dicts:
+                idx = n.slice
+                uses = '.lineno' in norm(idx) or any(isinstance(x, ast.Name) and x.id in lineno_names for x in ast.walk(idx))
+                if uses:
+                    ctx.ob('C19.lineno-not-physical', f'{fn.name}:{norm(n)}'[:100], False,
+                           f'{fn.name} indexes the sequence `{n.value.id}` with a token line number (`{norm(n)}`), but the lexer '
+                           f'rules {stale[:4]} can consume newlines without advancing lineno: after a multi-line comment or '
+                           f'string the wrong source line is shown and the carets point at nothing',
+                           file=INIT, line=n.lineno, witness='select a\nfrom t /* only\n active */\nwhere a = = 1')
+                else:
+                    ctx.ob('C19.lineno-not-physical', f'{fn.name}:{norm(n)}'[:100], True)
